@@ -140,7 +140,7 @@ ALT_STATES = ['absent', 'dir', 'file', 'link_other']
 
 
 def make_layout(rng, nvol=None, home_mode=None, xdg=None, uid=None, trash_states=None,
-                alt_states=None, nested=None):
+                alt_states=None, nested=None, workname=None):
     """the skeleton of a world: home, volumes, .Trash / .Trash-uid states.
     Returns a dict with 'steps', 'mounts', 'env', 'uid', 'home', 'vols',
     'work' (a directory per volume where user files go), 'aux'."""
@@ -215,11 +215,14 @@ def make_layout(rng, nvol=None, home_mode=None, xdg=None, uid=None, trash_states
     work = {'/': home + '/w'}
     steps.append(['d', home + '/w', 0o755])
     steps.append(['d', home + '/aux', 0o755])
+    # the directory user files live in on a volume: its name is the first
+    # component of every $topdir-relative Path, so vary it
+    wname = rng.choice(['docs', 'docs', 'docs', 'tmp', 'archive', 'Photos', 'home', 'at', 'Path=', '=']) if workname is None else workname
     for v in vols:
-        steps.append(['d', v + '/docs', 0o755])
+        steps.append(['d', v + '/' + wname, 0o755])
         steps.append(['d', v + '/aux', 0o755])
-        work[v] = v + '/docs'
-    L.update(steps=steps, mounts=mounts, env=env, uid=uid, home=home, vols=vols, work=work,
+        work[v] = v + '/' + wname
+    L.update(steps=steps, mounts=mounts, env=env, uid=uid, home=home, vols=vols, work=work, wname=wname,
              home_mode=home_mode, xdg=xdg)
     return L
 
